@@ -26,12 +26,15 @@ type Session struct {
 	Cursors map[int]*mast.Cursor
 	canonSeen map[string]string
 	curs      map[int]*curState
+	lastHeight int
+	bases      map[int]*baseInfo
+	written    map[string]string
 	ctx     context.Context
 }
 
 func NewSession(cfg Cfg) *Session {
 	s := &Session{Cfg: cfg, Store: NewRecStore("rec0"), Trees: map[int]*mast.Mast{}, Roots: map[int]*mast.Root{},
-		Oracle: map[int]map[uint64]uint64{}, ROracle: map[int]map[uint64]uint64{}, Cursors: map[int]*mast.Cursor{}, canonSeen: map[string]string{}, curs: map[int]*curState{},
+		Oracle: map[int]map[uint64]uint64{}, ROracle: map[int]map[uint64]uint64{}, Cursors: map[int]*mast.Cursor{}, canonSeen: map[string]string{}, curs: map[int]*curState{}, bases: map[int]*baseInfo{}, written: map[string]string{},
 		ctx: context.Background()}
 	switch cfg.Cache {
 	case "big":
@@ -139,6 +142,30 @@ func (s *Session) Exec(line string) (obs string, viol string) {
 		return o, v
 	}
 	switch t[0] {
+	case "getl", "insl", "dell", "loadl", "clonel":
+		base := map[string]string{"getl": "get", "insl": "ins", "dell": "del", "loadl": "load", "clonel": "clone"}[t[0]]
+		s.lastHeight = -1
+		if m := tree(1); m != nil {
+			s.lastHeight = int(m.Height())
+		}
+		s.Store.TakeLoads()
+		o, v := s.Exec(base + " " + strings.Join(t[1:], " "))
+		loads := s.Store.TakeLoads()
+		sort.Strings(loads)
+		if o == "bad-slot" || o == "bad-op" {
+			return o, v
+		}
+		if v == "" && (t[0] == "loadl" || t[0] == "clonel") && len(loads) > 1 {
+			v = fmt.Sprintf("%s read %d nodes", base, len(loads))
+		}
+		if v == "" && len(t) >= 2 && t[0] != "loadl" && t[0] != "clonel" {
+			if m := tree(1); m != nil {
+				v = s.checkReads(t[0], o, len(loads), int(m.Height()))
+			}
+		}
+		return o + " ;" + strings.Join(loads, " "), v
+	case "difflinks":
+		return s.execDiffLinks(int(num(1)), int(num(2)))
 	case "new":
 		r := mast.NewRoot(createOpts(s.Cfg))
 		m, err := r.LoadMast(s.ctx, s.remoteConfig())
@@ -147,6 +174,7 @@ func (s *Session) Exec(line string) (obs string, viol string) {
 		}
 		s.Trees[int(num(1))] = m
 		s.Oracle[int(num(1))] = map[uint64]uint64{}
+		s.setBase(int(num(1)), r)
 		return "ok", ""
 	case "ins":
 		m := tree(1)
@@ -159,6 +187,9 @@ func (s *Session) Exec(line string) (obs string, viol string) {
 			return errClass(err), "insert with valid arguments failed: " + err.Error()
 		}
 		o := s.Oracle[int(num(1))]
+		if ov, ok := o[k]; !ok || ov != v {
+			s.noteModified(int(num(1)), k)
+		}
 		o[k] = v
 		obs = fmt.Sprintf("ok %d %d", m.Size(), m.Height())
 		if m.Size() != uint64(len(o)) {
@@ -185,6 +216,7 @@ func (s *Session) Exec(line string) (obs string, viol string) {
 			viol = "delete of an absent key / non-matching value succeeded"
 		}
 		delete(o, k)
+		s.noteModified(int(num(1)), k)
 		obs = fmt.Sprintf("ok %d %d", m.Size(), m.Height())
 		if viol == "" && m.Size() != uint64(len(o)) {
 			viol = fmt.Sprintf("size %d after delete, %d live entries", m.Size(), len(o))
@@ -249,7 +281,7 @@ func (s *Session) Exec(line string) (obs string, viol string) {
 		if m == nil {
 			return "bad-slot", ""
 		}
-		return fmt.Sprintf("%d %d %v", m.Size(), m.Height(), m.IsDirty()), ""
+		return fmt.Sprintf("%d %d %v", m.Size(), m.Height(), m.IsDirty()), s.checkClean(int(num(1)), m.IsDirty())
 	case "clone":
 		m := tree(1)
 		if m == nil {
@@ -261,6 +293,16 @@ func (s *Session) Exec(line string) (obs string, viol string) {
 		}
 		s.Trees[int(num(2))] = &c
 		s.Oracle[int(num(2))] = copyMap(s.Oracle[int(num(1))])
+		if b := s.bases[int(num(1))]; b != nil {
+			cb := *b
+			cb.modified = map[uint64]bool{}
+			for k := range b.modified {
+				cb.modified[k] = true
+			}
+			s.bases[int(num(2))] = &cb
+		} else {
+			delete(s.bases, int(num(2)))
+		}
 		return "ok", ""
 	case "root", "roots":
 		m := tree(1)
@@ -292,7 +334,15 @@ func (s *Session) Exec(line string) (obs string, viol string) {
 			if v := checkName(c); v != "" {
 				viol = v
 			}
+			if prev, ok := s.written[c.Name]; ok && prev != string(c.Bytes) {
+				viol = "name " + c.Name + " written with two different byte strings"
+			}
+			s.written[c.Name] = string(c.Bytes)
 		}
+		if viol == "" && s.Cfg.Cache == "none" {
+			viol = s.checkIncremental(int(num(1)), r, calls)
+		}
+		s.setBase(int(num(1)), r)
 		if t[0] == "root" {
 			return fmt.Sprintf("%s %d %d %d", link, r.Size, r.Height, r.BranchFactor), viol
 		}
@@ -342,6 +392,7 @@ func (s *Session) Exec(line string) (obs string, viol string) {
 		}
 		s.Trees[int(num(2))] = m
 		s.Oracle[int(num(2))] = copyMap(s.ROracle[int(num(1))])
+		s.setBase(int(num(2)), r)
 		return "ok", ""
 	}
 	return "bad-op", ""
@@ -381,4 +432,24 @@ func (s *Session) ModelLine(line string) string {
 		return strings.TrimSpace(line + " " + l)
 	}
 	return line
+}
+
+// checkReads: C16's bounds evaluated on the implementation. hAfter is the height after the call;
+// the insert/delete bound applies when the height did not change, which the caller tracks
+// through lastHeight.
+func (s *Session) checkReads(op, obs string, nloads, hAfter int) string {
+	switch op {
+	case "getl":
+		if nloads > hAfter+1 {
+			return fmt.Sprintf("lookup read %d nodes on a tree of height %d", nloads, hAfter)
+		}
+	case "insl", "dell":
+		var sz, h int
+		if n, _ := fmt.Sscanf(obs, "ok %d %d", &sz, &h); n == 2 {
+			if s.lastHeight >= 0 && s.lastHeight == h && nloads > 2*(h+1) {
+				return fmt.Sprintf("%s read %d nodes on a tree of unchanged height %d", op, nloads, h)
+			}
+		}
+	}
+	return ""
 }
